@@ -54,6 +54,26 @@ pub fn roundtrip_oracle(ctx: &mut Ctx, ls: &Layouts, compressed: bool, p: &Packe
                 Some(Ok(e2)) if e2 == e1 => {},
                 other => ctx.violation(&format!("c01/reencode/{}", kind), "decoding a frame the encoder produced and re-encoding it does not yield the identical bytes", op, &hex(&e1), &format!("{:?}", other.map(|r| r.map(|b| hex(&b))))),
             }
+            // the same frame with more of the stream already behind it in the receive buffer (coalesced reads, a backlog): the
+            // packet is the packet of its own frame, and what follows is left alone
+            let follower = vec![crate::conn::size_byte(compressed, 4), 3, 2, 3];
+            let mut joint = e1.clone();
+            joint.extend_from_slice(&follower);
+            let r = guard(move || {
+                #[allow(unused_mut)] let mut c = insim::net::Codec::new(crate::conn::mode_of(compressed));
+                let mut buf = bytes::BytesMut::from(&joint[..]);
+                let p = c.decode(&mut buf);
+                (p.ok().flatten(), buf.to_vec())
+            });
+            match r {
+                Some((Some(p3), rest)) => {
+                    let c3 = canon_packet(ls, &p3);
+                    if c3 != c1 || rest != follower {
+                        ctx.violation(&format!("c01/encode-decode/{}/with-follower", kind), "with another frame behind it in the receive buffer, the encoder's frame does not decode to an equal packet (or the following frame is not left intact)", op, &format!("{} + rest {}", c1, hex(&follower)), &format!("{} + rest {}", c3, hex(&rest)));
+                    }
+                },
+                other => ctx.violation(&format!("c01/encode-decode/{}/with-follower", kind), "with another frame behind it in the receive buffer, the encoder's frame does not decode", op, &c1, &format!("{:?}", other.map(|(_, rest)| hex(&rest)))),
+            }
         },
         Dec::Pkt(_, n) => ctx.violation(&format!("c01/encode-decode/{}/leftover", kind), "decoding the encoder's frame left bytes behind", op, "rem=0", &format!("rem={}", n)),
         _ => ctx.violation(&format!("c01/encode-decode/{}/undecodable", kind), "the encoder's own frame does not decode", op, &c1, &hex(&e1)),
